@@ -426,6 +426,21 @@ func c13Create(e *c13Env, kind string) *c13Obj {
 		sonic.NewAsyncAdapter(e.ioc, c.(syscall.Conn), c, func(err error, x *sonic.AsyncAdapter) { ad = x })
 		o.close = ad.Close
 		o.owner = c.Close
+	case "adapter-file":
+		// the adapted object is not a net.Conn: an *os.File (one end of a pipe), which is a syscall.Conn, an
+		// io.ReadWriter and an io.Closer that owns its descriptor just the same
+		r, w, err := os.Pipe()
+		if err != nil {
+			engine.HarnessError("os.Pipe: %v", err)
+		}
+		w.Close()
+		var ad *sonic.AsyncAdapter
+		sonic.NewAsyncAdapter(e.ioc, r, r, func(err error, x *sonic.AsyncAdapter) { ad = x })
+		if ad == nil {
+			engine.HarnessError("NewAsyncAdapter(os.File) did not produce an adapter")
+		}
+		o.close = ad.Close
+		o.owner = r.Close
 	}
 	after := kern.Census(c13Dir)
 	add, _, _ := before.Diff(after)
@@ -436,7 +451,7 @@ func c13Create(e *c13Env, kind string) *c13Obj {
 	return o
 }
 
-var c13Kinds = []string{"listener", "packet", "conn", "timer", "peer", "file", "adapter", "io"}
+var c13Kinds = []string{"listener", "packet", "conn", "timer", "peer", "file", "adapter", "adapter-file", "io"}
 
 func c13Close(x *engine.X) {
 	e := newC13Env(x)
